@@ -752,4 +752,45 @@ func RuleBR1(c *Ctx) {
 	if bad == 0 {
 		sc.Holds("handlers", "-", fmt.Sprintf("%d functions reachable from the %d handlers of the build stage, none reads UserTypes/UserEnums", len(reach), len(roots)))
 	}
+	// and it does not add to what schemas are parsed against: the rule set (the map of
+	// JApiCore whose values are the schema library's Rule) is complete before the walk
+	// starts - a rule stored by a handler exists only for the schemas parsed after it
+	var rulesField *types.Var
+	if coreT := c.Named("core", "JApiCore"); coreT != nil {
+		if st, ok := coreT.Underlying().(*types.Struct); ok {
+			for i := 0; i < st.NumFields(); i++ {
+				if mt, ok := st.Field(i).Type().Underlying().(*types.Map); ok {
+					if n, ok := mt.Elem().(*types.Named); ok && n.Obj().Name() == "Rule" && n.Obj().Pkg() != nil && strings.Contains(n.Obj().Pkg().Path(), "jsight-schema-go-library") {
+						rulesField = st.Field(i)
+					}
+				}
+			}
+		}
+	}
+	if rulesField == nil {
+		sc.Undecided("rules", "-", "unresolved anchor: the rule-set field of JApiCore (map to the schema library's Rule)")
+		return
+	}
+	late2 := 0
+	for _, f := range reach {
+		fd := c.P.Decl(f)
+		ast.Inspect(fd.Body, func(n ast.Node) bool {
+			as, ok := n.(*ast.AssignStmt)
+			if !ok {
+				return true
+			}
+			for _, l := range as.Lhs {
+				if ix, ok := ast.Unparen(l).(*ast.IndexExpr); ok {
+					if sel, ok := ast.Unparen(ix.X).(*ast.SelectorExpr); ok && info.ObjectOf(sel.Sel) == types.Object(rulesField) {
+						late2++
+						sc.Violation(fmt.Sprintf("%s:%s-store#%d", c.P.DeclName(fd), rulesField.Name(), late2), c.P.Pos(as.Pos()), fmt.Sprintf("a rule is added to core.%s while the directive handlers are building the catalog: the schemas parsed earlier in the walk did not have it (a body using an enum that a later PASTE brings in is rejected, the same body after the PASTE is accepted)", rulesField.Name()))
+					}
+				}
+			}
+			return true
+		})
+	}
+	if late2 == 0 {
+		sc.Holds("rules-complete", "-", fmt.Sprintf("no function reachable from the handlers stores into core.%s", rulesField.Name()))
+	}
 }
